@@ -269,6 +269,7 @@ type simOutcome struct {
 	job   simJob
 	res   simResult
 	crash string // non-empty: the worker died on this job every time (stderr tail)
+	log   string
 }
 
 func (sp *simPool) runAll(jobs []simJob, fn func(simOutcome)) {
@@ -301,6 +302,9 @@ func (sp *simPool) runAll(jobs []simJob, fn func(simOutcome)) {
 					r, err := p.run(job)
 					if err == nil {
 						out.res = r
+						if os.Getenv("VERIF_SIM_LOG") != "" {
+							out.log = p.stderr.String()
+						}
 						break
 					}
 					tail := p.kill()
@@ -502,6 +506,9 @@ func simReplayOne(t *testing.T, r *vr.Report, rp simReplay) {
 			r.Violationf(v.Key, rp, "history [%s]: %s", simHistString(rp.Hist), v.What)
 		}
 		t.Logf("final state:\n%s", o.res.KeyText)
+		if os.Getenv("VERIF_SIM_LOG") != "" {
+			t.Logf("worker output:\n%s", o.log)
+		}
 	})
 }
 
